@@ -272,7 +272,12 @@ func unmarshalArrayAny(dec *jsontext.Decoder, uo *jsonopts.Struct) ([]any, error
 	}
 	arr := []any{}
 	var errUnmarshal error
-	for dec.PeekKind() != ']' {
+	for {
+		if ok, err := arrayHasNext(dec); err != nil {
+			return arr, err
+		} else if !ok {
+			break
+		}
 		val, err := unmarshalValueAny(dec, uo)
 		arr = append(arr, val)
 		if err != nil {
